@@ -142,7 +142,7 @@ def run(chk, replay=None):
           ('binomial.binary_conditional_likelihood_test', lambda fa, fb, c: be.binary_conditional_likelihood_test(fa, c, num_simulations=8, seed=3), False, False),
           ('binomial.binary_paired_t_test', lambda fa, fb, c: be.binary_paired_t_test(fa, fb, c), True, False),
           ('brier.brier_score_test', lambda fa, fb, c: br.brier_score_test(fa, c, num_simulations=8, seed=3), False, False)]
-    n_in = 6 if quick else 40
+    n_in = 6 if quick else 240
     for t in range(n_in):
         nc, nb = rng.choice([(4, 1), (6, 2), (8, 3)])
         n_ev = rng.choice([2, 3, 6, 20])
@@ -170,7 +170,7 @@ def run(chk, replay=None):
     # ---------------------------------------------------------------- gridded tests on quadtree regions (cells re-ordered)
     import mercantile
     from csep.core.regions import QuadtreeGrid2D
-    for t in range(3 if quick else 15):
+    for t in range(3 if quick else 90):
         qks = [a + b for a in '0123' for b in '0123'] if t % 2 == 0 else ['0', '1', '20', '21', '22', '23', '30', '31', '32', '33']
         nb = 2
         mags = numpy.array([4.0, 5.0])
@@ -225,7 +225,7 @@ def run(chk, replay=None):
             data.append(('o%d' % j,) + tuple(e[1:]))
         return CSEPCatalog(data=data, region=world.make_region(), name='obs')
 
-    for t in range(6 if quick else 40):
+    for t in range(6 if quick else 240):
         J = rng.choice([3, 6, 25])
         u = 0
         cats = []
